@@ -459,7 +459,7 @@ ASSUMPTIONS = [
 ]
 PROBES = ["incoming_traffic_while_sending", "multi_caller", "preempted_inside_udp_socket", "handler_removed_while_running", "no_handler_accepts", "handler_raised_in_handle",
           "handler_raised_in_handled", "unanswered", "answered", "answer_after_removal", "handshake_with_losses", "segment_lost_during_handshake"]
-N_QUICK = 1600
+N_QUICK = 4800
 
 
 def jobs(tier: str, base_seed: int):
